@@ -325,13 +325,30 @@ pub fn encode(tree: &Value) -> Result<Vec<u8>, ()> {
     encode_mode(tree, true)
 }
 
+fn max_fill(v: &Value) -> u64 {
+    match v {
+        Value::Object(m) => {
+            let own = if m.get("t").and_then(|t| t.as_str()) == Some("BufferFill") { m.get("n").and_then(|n| n.as_u64()).unwrap_or(0) } else { 0 };
+            m.values().map(max_fill).fold(own, u64::max)
+        }
+        Value::Array(a) => a.iter().map(max_fill).fold(0, u64::max),
+        _ => 0,
+    }
+}
+
 /// native: every node is the crate's own object; otherwise every child is a `Node` wrapper
 pub fn encode_mode(tree: &Value, native: bool) -> Result<Vec<u8>, ()> {
     let mut arena = Arena::new();
     let r = guarded(|| {
-        let mut v = Vec::new();
-        build(tree, native, &mut arena).to_aml_bytes(&mut v);
-        v
+        let o = build(tree, native, &mut arena);
+        // objects of hundreds of MiB always into a vector (a byte-at-a-time sink would take minutes)
+        if max_fill(tree) > (16 << 20) {
+            let mut v = Vec::new();
+            o.to_aml_bytes(&mut v);
+            v
+        } else {
+            ser(o)
+        }
     });
     arena.free();
     r
@@ -413,6 +430,26 @@ pub fn exec_ints(run: u64, prog: &Value, out: &mut Out) {
         a.to_aml_bytes(&mut v);
         jbytes(&v)
     };
+    // the same constants into a sink that implements nothing but byte(): the wide pushes then go through the trait's
+    // default methods
+    struct ByteOnly(Vec<u8>);
+    impl AmlSink for ByteOnly {
+        fn byte(&mut self, b: u8) {
+            self.0.push(b)
+        }
+    }
+    let encb = |a: &dyn Aml| {
+        let mut s = ByteOnly(Vec::new());
+        a.to_aml_bytes(&mut s);
+        jbytes(&s.0)
+    };
+    let (mut b16, mut b32, mut b64, mut bus) = (Vec::new(), Vec::new(), Vec::new(), Vec::new());
+    for v in &vals {
+        b16.push(if *v <= u16::MAX as u64 { encb(&(*v as u16)) } else { json!([]) });
+        b32.push(if *v <= u32::MAX as u64 { encb(&(*v as u32)) } else { json!([]) });
+        b64.push(encb(v));
+        bus.push(encb(&(*v as usize)));
+    }
     let mut o8 = Vec::new();
     let mut o16 = Vec::new();
     let mut o32 = Vec::new();
@@ -425,7 +462,8 @@ pub fn exec_ints(run: u64, prog: &Value, out: &mut Out) {
         o64.push(enc(v));
         ous.push(enc(&(*v as usize)));
     }
-    out.emit(json!({"ev":"ints","run":run,"vals":get(prog, "vals"),"u8":o8,"u16":o16,"u32":o32,"u64":o64,"usize":ous}));
+    out.emit(json!({"ev":"ints","run":run,"vals":get(prog, "vals"),"u8":o8,"u16":o16,"u32":o32,"u64":o64,"usize":ous,
+        "u16_bytesink":b16,"u32_bytesink":b32,"u64_bytesink":b64,"usize_bytesink":bus}));
 }
 
 /// {"fam":"strs","what":"path"|"eisa"|"uuid","strs":[[chars]..]}: batched string-taking constructors.
